@@ -1,6 +1,738 @@
-//! C17 — not implemented yet.
-use crate::core::Ctx;
-use serde_json::Value;
+//! C17 — server-sent event streams deliver every message intact and end properly (DESIGN §5 C17, shape I).
+//!
+//! One case = (stream constructor, message sequence, producer schedule, writer behaviour).
+//! A one-route application whose handler returns `ohkami::sse::DataStream` is finalized once per
+//! worker; per case a `GET /` is read by the real `Request::read`, dispatched by the real router, and
+//! the resulting stream response is written by the real `Response::send` into a scripted writer.  The
+//! `send` future is polled by the harness executor: every poll is counted, "Pending without any wake
+//! requested" is a decided state.  A scripted producer that performed a *yield woken later by the
+//! harness* has left its waker in a shared slot; on a stall the harness (the environment) wakes it —
+//! after noting how many messages had been pushed and how many bytes had been written.  A stall with
+//! an empty slot is a real stall.
+//!
+//! Oracle: independent response parser + chunked reader (`refmodel::http`), independent WHATWG
+//! event-stream parser (`refmodel::sse`); the dispatched events must equal the messages after
+//! CR/CRLF→LF normalisation (count, order, text), carry no `event`/`id`/`retry`, the stream must be
+//! grammatical (every event closed) and nothing may follow the terminating chunk.  In addition, at
+//! every environment move (the producer waits for an outside event that may never come) every message
+//! pushed so far must already be decodable from the bytes written so far — otherwise "at any pace"
+//! would be empty words: the message is lost for as long as the producer waits.
+//!
+//! Part B (one sharding unit): 90 small cases are additionally sent through the real `Session::manage`
+//! over loopback TCP on a single-threaded tokio runtime; the socket bytes must equal the in-memory
+//! bytes (binds the harness-driven read/handle/send sequence to the real session loop; a mismatch is a
+//! machinery failure).  One more socket case lets the producer sleep longer than the session's
+//! keep-alive limit (set to 1 s through OHKAMI_KEEPALIVE_TIMEOUT) and is judged by the same oracle.
+//!
+//! Class ids: `C17/<text feature>/<schedule feature>/<symptom>`; for symptoms tied to one message the
+//! text feature is that of the first message that arrives wrong, otherwise the most demanding feature
+//! in the sequence (lone-CR > CRLF > LF > field-lookalike > leading-space > empty > non-ascii > plain).
 
-pub fn run(ctx: &mut Ctx) { ctx.machinery_error("C17 engine not implemented".into()); }
-pub fn replay(ctx: &mut Ctx, _case: &Value) { ctx.machinery_error("C17 engine not implemented".into()); }
+use crate::core::{guarded, panic_kind, Ctx};
+use crate::exec::{Driver, RunResult};
+use crate::refmodel::http::{parse_response, Framing};
+use crate::refmodel::sse;
+use crate::sio::{ScriptedReader, ScriptedWriter, WriterMode};
+use ohkami::__verif__::{send, RawConn, VerifRouter};
+use ohkami::sse::DataStream;
+use ohkami::{Ohkami, Route};
+use serde_json::{json, Value};
+use std::cell::{Cell, RefCell};
+use std::collections::VecDeque;
+use std::future::Future;
+use std::pin::Pin;
+use std::rc::Rc;
+use std::sync::{Arc, Mutex, MutexGuard};
+use std::task::{Context, Poll, Waker};
+
+/* ------------------------------------------------------------------------------------------------
+   alphabets
+------------------------------------------------------------------------------------------------ */
+
+/// DESIGN §5 C17 alphabet, simplest first.
+const MESSAGES: [&str; 11] = ["a", "", "a\nb", "a\rb", "a\r\nb", " a", "data: x", "a\revent: y", "\n", ":c", "é"];
+/// thorough tier only: trailing line breaks (LF and lone CR) — an extension of the design's alphabet
+const MESSAGES_EXTRA: [&str; 2] = ["a\n", "a\r"];
+
+#[derive(Clone, Copy, PartialEq, Eq, Debug)]
+enum Gap { None, SelfWake, Harness, Two,
+    /// real `tokio::time::sleep` longer than the session's keep-alive limit (part B, over TCP only)
+    Sleep }
+const GAPS: [Gap; 4] = [Gap::None, Gap::SelfWake, Gap::Harness, Gap::Two];
+impl Gap {
+    fn letter(self) -> char { match self { Gap::None => 'N', Gap::SelfWake => 'S', Gap::Harness => 'H', Gap::Two => 'D', Gap::Sleep => 'Z' } }
+    fn from_letter(c: char) -> Option<Gap> { Some(match c { 'N' => Gap::None, 'S' => Gap::SelfWake, 'H' => Gap::Harness, 'D' => Gap::Two, 'Z' => Gap::Sleep, _ => return None }) }
+}
+
+#[derive(Clone, Copy, PartialEq, Eq, Debug)]
+enum Mode { New, From }
+impl Mode { fn name(self) -> &'static str { match self { Mode::New => "new", Mode::From => "from" } } }
+
+const WRITERS: [(WriterMode, &str); 3] = [(WriterMode::All, "all"), (WriterMode::AtMost(7), "atmost7"), (WriterMode::PendingOnce, "pending-once")];
+
+#[derive(Clone, Debug)]
+struct Case { mode: Mode, messages: Vec<String>, gaps: Vec<Gap>, writer: usize,
+    /// false: in memory under the harness executor;  true: real `Session::manage` over loopback TCP under tokio
+    tcp: bool }
+
+impl Case {
+    fn gaps_string(&self) -> String { self.gaps.iter().map(|g| g.letter()).collect() }
+    fn to_json(&self) -> Value {
+        if self.tcp { json!({"transport": "tcp", "mode": self.mode.name(), "messages": self.messages, "gaps": self.gaps_string(),
+                             "keepalive_timeout_s": KEEPALIVE_S, "sleep_ms_per_Z_gap": SLEEP_MS}) }
+        else { json!({"mode": self.mode.name(), "messages": self.messages, "gaps": self.gaps_string(), "writer": WRITERS[self.writer].1}) }
+    }
+    fn from_json(v: &Value) -> Result<Case, String> {
+        let mode = match v["mode"].as_str() { Some("new") => Mode::New, Some("from") => Mode::From, o => return Err(format!("mode {o:?}")) };
+        let messages: Vec<String> = v["messages"].as_array().ok_or("messages")?.iter()
+            .map(|m| m.as_str().map(str::to_string).ok_or("message is not a string")).collect::<Result<_, _>>()?;
+        let gaps: Vec<Gap> = v["gaps"].as_str().ok_or("gaps")?.chars().map(|c| Gap::from_letter(c).ok_or("gap letter")).collect::<Result<_, _>>()?;
+        if gaps.len() != messages.len() + 1 { return Err("gaps must have one entry more than messages".into()) }
+        let tcp = v["transport"].as_str() == Some("tcp");
+        let writer = if tcp { 0 } else {
+            let w = v["writer"].as_str().ok_or("writer")?;
+            WRITERS.iter().position(|(_, n)| *n == w).ok_or("writer name")?
+        };
+        if tcp && gaps.contains(&Gap::Harness) { return Err("H gaps cannot run over TCP".into()) }
+        if tcp && mode == Mode::From && gaps.contains(&Gap::Sleep) { return Err("Z gaps are scripted for DataStream::new only".into()) }
+        if !tcp && gaps.contains(&Gap::Sleep) { return Err("Z gaps need the TCP transport".into()) }
+        Ok(Case { mode, messages, gaps, writer, tcp })
+    }
+}
+
+/* ------------------------------------------------------------------------------------------------
+   the scripted producer (environment of the stream)
+------------------------------------------------------------------------------------------------ */
+
+#[derive(Clone, Debug)]
+enum Step { Item(String), YieldSelf, YieldHarness, Sleep }
+
+#[derive(Default)]
+struct Slot {
+    /// waker left by a producer that waits for the harness
+    waker: Option<Waker>,
+    /// set by the harness when it wakes; consumed by the waiting yield
+    released: bool,
+    /// messages handed to the stream so far
+    pushed: usize,
+    finished: bool,
+}
+type SharedSlot = Arc<Mutex<Slot>>;
+fn lock(s: &SharedSlot) -> MutexGuard<'_, Slot> { s.lock().unwrap_or_else(|e| e.into_inner()) }
+
+struct Script { mode: Mode, steps: Vec<Step>, slot: SharedSlot }
+
+thread_local! {
+    static SCRIPT: RefCell<Option<Script>> = const { RefCell::new(None) };
+}
+
+fn steps_of(case: &Case) -> Vec<Step> {
+    let mut steps = Vec::new();
+    for (i, g) in case.gaps.iter().enumerate() {
+        match g {
+            Gap::None => {}
+            Gap::SelfWake => steps.push(Step::YieldSelf),
+            Gap::Harness => steps.push(Step::YieldHarness),
+            Gap::Two => { steps.push(Step::YieldSelf); steps.push(Step::YieldSelf) }
+            Gap::Sleep => steps.push(Step::Sleep),
+        }
+        if let Some(m) = case.messages.get(i) { steps.push(Step::Item(m.clone())) }
+    }
+    steps
+}
+
+/// like `tokio::task::yield_now`: asks to be polled again and returns Pending once
+struct YieldSelf(bool);
+impl Future for YieldSelf {
+    type Output = ();
+    fn poll(mut self: Pin<&mut Self>, cx: &mut Context<'_>) -> Poll<()> {
+        if self.0 { return Poll::Ready(()) }
+        self.0 = true;
+        cx.waker().wake_by_ref();
+        Poll::Pending
+    }
+}
+
+/// like waiting for a timer / a channel: leaves the waker with the environment and stays Pending
+/// (however often it is polled) until the environment has woken it
+struct YieldHarness { slot: SharedSlot, registered: bool }
+impl Future for YieldHarness {
+    type Output = ();
+    fn poll(mut self: Pin<&mut Self>, cx: &mut Context<'_>) -> Poll<()> {
+        let slot = self.slot.clone();
+        let mut s = lock(&slot);
+        if self.registered && s.released { s.released = false; s.waker = None; return Poll::Ready(()) }
+        self.registered = true;
+        s.waker = Some(cx.waker().clone());
+        Poll::Pending
+    }
+}
+
+/// the `DataStream::from(stream)` path: a hand-written Stream answering from the same script
+struct ScriptedStream { steps: VecDeque<Step>, slot: SharedSlot, self_yielded: bool, registered: bool }
+impl ohkami_lib::Stream for ScriptedStream {
+    type Item = String;
+    fn poll_next(self: Pin<&mut Self>, cx: &mut Context<'_>) -> Poll<Option<String>> {
+        let this = self.get_mut();
+        loop {
+            match this.steps.front() {
+                None => { lock(&this.slot).finished = true; return Poll::Ready(None) }
+                Some(Step::Item(_)) => {
+                    let Some(Step::Item(m)) = this.steps.pop_front() else { unreachable!() };
+                    lock(&this.slot).pushed += 1;
+                    return Poll::Ready(Some(m))
+                }
+                Some(Step::YieldSelf) => {
+                    if this.self_yielded { this.self_yielded = false; this.steps.pop_front(); continue }
+                    this.self_yielded = true;
+                    cx.waker().wake_by_ref();
+                    return Poll::Pending
+                }
+                Some(Step::Sleep) => unreachable!("C17 harness: Z gaps are not scripted for DataStream::from"),
+                Some(Step::YieldHarness) => {
+                    let mut s = lock(&this.slot);
+                    if this.registered && s.released {
+                        s.released = false; s.waker = None; drop(s);
+                        this.registered = false; this.steps.pop_front(); continue
+                    }
+                    this.registered = true;
+                    s.waker = Some(cx.waker().clone());
+                    return Poll::Pending
+                }
+            }
+        }
+    }
+}
+
+async fn handler() -> DataStream {
+    let Script { mode, steps, slot } = SCRIPT.with(|s| s.borrow_mut().take()).expect("C17 harness: no script installed");
+    match mode {
+        Mode::New => DataStream::new(move |mut s| async move {
+            for step in steps {
+                match step {
+                    Step::Item(m) => { s.send(m); lock(&slot).pushed += 1 }
+                    Step::YieldSelf => YieldSelf(false).await,
+                    Step::YieldHarness => YieldHarness { slot: slot.clone(), registered: false }.await,
+                    Step::Sleep => tokio::time::sleep(std::time::Duration::from_millis(SLEEP_MS)).await,
+                }
+            }
+            lock(&slot).finished = true;
+        }),
+        Mode::From => DataStream::from(ScriptedStream { steps: steps.into(), slot, self_yielded: false, registered: false }),
+    }
+}
+
+/* ------------------------------------------------------------------------------------------------
+   running one case on the real code
+------------------------------------------------------------------------------------------------ */
+
+/// the scripted writer of `sio`, plus a running byte count the harness can read while `send` holds the writer
+struct TapWriter { inner: ScriptedWriter, len: Rc<Cell<usize>> }
+impl tokio::io::AsyncWrite for TapWriter {
+    fn poll_write(mut self: Pin<&mut Self>, cx: &mut Context<'_>, buf: &[u8]) -> Poll<std::io::Result<usize>> {
+        let r = Pin::new(&mut self.inner).poll_write(cx, buf);
+        self.len.set(self.inner.written.len());
+        r
+    }
+    fn poll_flush(mut self: Pin<&mut Self>, cx: &mut Context<'_>) -> Poll<std::io::Result<()>> { Pin::new(&mut self.inner).poll_flush(cx) }
+    fn poll_shutdown(mut self: Pin<&mut Self>, cx: &mut Context<'_>) -> Poll<std::io::Result<()>> { Pin::new(&mut self.inner).poll_shutdown(cx) }
+}
+
+#[derive(Debug, Clone, PartialEq, Eq)]
+enum End { Done { upgraded: bool }, Stall(&'static str), Livelock(&'static str), Panic(&'static str, String) }
+
+struct Run {
+    end: End,
+    written: Vec<u8>,
+    polls: u64,
+    /// at every environment move: (bytes written so far, messages pushed so far)
+    moves: Vec<(usize, usize)>,
+    pushed: usize,
+    producer_finished: bool,
+}
+
+const POLL_BUDGET: u64 = 20_000;
+/// the one request of every case (`Connection: close` lets the real session of part B end after the response)
+const REQUEST: &[u8] = b"GET / HTTP/1.1\r\nHost: h\r\nConnection: close\r\n\r\n";
+
+fn execute(router: &VerifRouter, case: &Case) -> Run {
+    let slot: SharedSlot = Arc::new(Mutex::new(Slot::default()));
+    SCRIPT.with(|s| *s.borrow_mut() = Some(Script { mode: case.mode, steps: steps_of(case), slot: slot.clone() }));
+    let mut d = Driver::new();
+    let mut run = Run { end: End::Done { upgraded: false }, written: Vec::new(), polls: 0, moves: Vec::new(), pushed: 0, producer_finished: false };
+    let finish = |mut run: Run, d: &Driver, end: End| { run.end = end; run.polls = d.polls; let s = lock(&slot); run.pushed = s.pushed; run.producer_finished = s.finished; run };
+
+    let mut conn = RawConn::init();
+    let mut reader = ScriptedReader::new(vec![REQUEST.to_vec()], false);
+    reader.deliver_next();
+    let read = guarded(|| {
+        let fut = conn.read(&mut reader);
+        let mut fut = std::pin::pin!(fut);
+        match d.run(fut.as_mut(), 1000) { RunResult::Ready(r) => Ok(r), RunResult::Stalled => Err(End::Stall("read")), RunResult::Livelock => Err(End::Livelock("read")) }
+    });
+    match read {
+        Err(p) => return finish(run, &d, End::Panic("read", p)),
+        Ok(Err(e)) => return finish(run, &d, e),
+        Ok(Ok(Ok(Some(())))) => {}
+        Ok(Ok(_)) => return finish(run, &d, End::Panic("read", "harness: the fixed GET request was not accepted".into())),
+    }
+    let handled = guarded(|| {
+        let fut = router.handle(conn.request_mut());
+        let mut fut = std::pin::pin!(fut);
+        match d.run(fut.as_mut(), 1000) { RunResult::Ready(r) => Ok(r), RunResult::Stalled => Err(End::Stall("handle")), RunResult::Livelock => Err(End::Livelock("handle")) }
+    });
+    let res = match handled {
+        Err(p) => return finish(run, &d, End::Panic("handle", p)),
+        Ok(Err(e)) => return finish(run, &d, e),
+        Ok(Ok(res)) => res,
+    };
+
+    let len = Rc::new(Cell::new(0usize));
+    let mut w = TapWriter { inner: ScriptedWriter::new(WRITERS[case.writer].0), len: len.clone() };
+    let mut moves = Vec::new();
+    let sent = guarded(|| {
+        let fut = send(res, &mut w);
+        let mut fut = std::pin::pin!(fut);
+        loop {
+            match d.run(fut.as_mut(), POLL_BUDGET) {
+                RunResult::Ready(upgraded) => return End::Done { upgraded },
+                RunResult::Livelock => return End::Livelock("send"),
+                RunResult::Stalled => {
+                    // the environment's move: wake a producer that waits for us, if there is one
+                    let waker = { let mut s = lock(&slot); let wk = s.waker.take(); if wk.is_some() { s.released = true; moves.push((len.get(), s.pushed)); } wk };
+                    match waker {
+                        Some(wk) => {
+                            // the waker the producer was handed must lead back to the task that runs `send`
+                            let before = d.wakes();
+                            wk.wake();
+                            if d.wakes() == before { return End::Stall("send:producer-wake-not-propagated") }
+                        }
+                        None => return End::Stall("send"),
+                    }
+                    if moves.len() > 64 { return End::Livelock("send") }
+                }
+            }
+        }
+    });
+    run.written = std::mem::take(&mut w.inner.written);
+    run.moves = moves;
+    match sent {
+        Err(p) => finish(run, &d, End::Panic("send", p)),
+        Ok(end) => finish(run, &d, end),
+    }
+}
+
+/* ------------------------------------------------------------------------------------------------
+   features (class ids are functions of these and of the symptom kind only)
+------------------------------------------------------------------------------------------------ */
+
+fn has_lone_cr(m: &str) -> bool {
+    let b = m.as_bytes();
+    (0..b.len()).any(|i| b[i] == b'\r' && b.get(i + 1) != Some(&b'\n'))
+}
+
+fn text_feature(m: &str) -> &'static str {
+    if has_lone_cr(m) { "lone-CR" }
+    else if m.contains("\r\n") { "CRLF" }
+    else if m.contains('\n') { "LF" }
+    else if m.contains(':') { "field-lookalike" }
+    else if m.starts_with(' ') { "leading-space" }
+    else if m.is_empty() { "empty" }
+    else if !m.is_ascii() { "non-ascii" }
+    else { "plain" }
+}
+const FEATURE_RANK: [&str; 8] = ["lone-CR", "CRLF", "LF", "field-lookalike", "leading-space", "empty", "non-ascii", "plain"];
+
+/// the most demanding feature present in the sequence (for symptoms that are not tied to one message)
+fn sequence_feature(ms: &[String]) -> &'static str {
+    if ms.is_empty() { return "no-message" }
+    let best = ms.iter().map(|m| FEATURE_RANK.iter().position(|f| *f == text_feature(m)).unwrap()).min().unwrap();
+    FEATURE_RANK[best]
+}
+
+fn schedule_feature(case: &Case) -> &'static str {
+    let k = case.messages.len();
+    let pending_anywhere = case.gaps.iter().any(|g| *g != Gap::None);
+    if case.gaps.contains(&Gap::Sleep) { return "slower-than-session-timeout" }
+    match case.mode {
+        Mode::From => if pending_anywhere { "from-stream-pending" } else { "from-stream" },
+        Mode::New => {
+            let burst = k >= 2 && case.gaps[1..k].iter().any(|g| *g == Gap::None);
+            if burst { "burst" }
+            else if k >= 1 && case.gaps[k] == Gap::None { "finish-with-queue" }
+            else if case.gaps[k] != Gap::None { "pending-after-last" }
+            else { "plain" }
+        }
+    }
+}
+
+/* ------------------------------------------------------------------------------------------------
+   oracle
+------------------------------------------------------------------------------------------------ */
+
+enum Verdict {
+    Pass { key: String },
+    Ambiguous { reason: String },
+    Violation { class: String, observed: Value },
+}
+
+fn response_error_kind(e: &str) -> &'static str {
+    if e.starts_with("chunk size line not terminated") { "no-terminating-chunk" }
+    else if e.starts_with("bad chunk size") || e.starts_with("chunk size") { "bad-chunk-size" }
+    else if e.starts_with("chunk of") { "chunk-size-exceeds-data" }
+    else if e.starts_with("chunk data not followed") { "chunk-size-mismatch" }
+    else if e.starts_with("terminating chunk") { "terminator-without-crlf" }
+    else { "bad-head" }
+}
+
+fn event_json(e: &sse::Event) -> Value {
+    json!({"data": e.data, "event": e.event, "ids": e.ids, "retries": e.retries, "comments": e.comments,
+           "ignored_fields": e.unknown.iter().map(|(k, v)| json!([k, v])).collect::<Vec<_>>()})
+}
+
+/// events decodable from the first `upto` bytes of what was written
+fn events_in_prefix(written: &[u8], upto: usize) -> usize {
+    let prefix = &written[..upto.min(written.len())];
+    let Some(h) = prefix.windows(4).position(|w| w == b"\r\n\r\n") else { return 0 };
+    let (payload, _) = sse::dechunk_prefix(&prefix[h + 4..]);
+    // cut at the last byte that is valid UTF-8 (a chunk boundary may not split a character here, but be tolerant)
+    let text = match std::str::from_utf8(&payload) { Ok(t) => t, Err(e) => std::str::from_utf8(&payload[..e.valid_up_to()]).unwrap() };
+    sse::parse_str(text).events.len()
+}
+
+fn judge(case: &Case, run: &Run) -> Verdict {
+    let seqf = sequence_feature(&case.messages);
+    let schf = schedule_feature(case);
+    let expected: Vec<String> = case.messages.iter().map(|m| sse::normalise(m)).collect();
+    let viol = |textf: &str, symptom: String, observed: Value| Verdict::Violation { class: format!("C17/{textf}/{schf}/{symptom}"), observed };
+    let raw = || crate::core::esc(&run.written);
+
+    match &run.end {
+        End::Panic(stage, msg) => return viol(seqf, format!("panic@{stage}:{}", panic_kind(msg)), json!({"panic": msg, "written": raw()})),
+        End::Livelock(stage) => return viol(seqf, format!("livelock@{stage}"), json!({"written": raw(), "polls": run.polls})),
+        End::Stall(stage) => {
+            let delivered = events_in_prefix(&run.written, run.written.len());
+            let what = if !stage.starts_with("send") { "" } else if delivered >= expected.len() { "/all-delivered" } else { "/messages-outstanding" };
+            return viol(seqf, format!("stall@{stage}{what}"), json!({"written": raw(), "polls": run.polls, "pushed": run.pushed, "producer_finished": run.producer_finished, "events_delivered": delivered}))
+        }
+        End::Done { upgraded: true } => return viol(seqf, "reported-upgrade".into(), json!({"written": raw()})),
+        End::Done { upgraded: false } => {}
+    }
+
+    /* framing */
+    let p = match parse_response(&run.written, false) {
+        Err(e) => return viol(seqf, format!("malformed-response:{}", response_error_kind(&e)), json!({"error": e, "written": raw()})),
+        Ok(p) => p,
+    };
+    if p.status != 200 { return viol(seqf, "head:status".into(), json!({"status": p.status, "written": raw()})) }
+    let te = p.header_all("Transfer-Encoding");
+    if p.framing != Framing::Chunked || te.len() != 1 || !te[0].eq_ignore_ascii_case("chunked") {
+        return viol(seqf, "head:transfer-encoding".into(), json!({"transfer_encoding": te, "written": raw()}))
+    }
+    if !p.header_all("Content-Length").is_empty() { return viol(seqf, "head:content-length-present".into(), json!({"written": raw()})) }
+    let ct = p.header_all("Content-Type");
+    let ct_ok = ct.len() == 1 && ct[0].split(';').next().unwrap().trim().eq_ignore_ascii_case("text/event-stream");
+    if !ct_ok { return viol(seqf, "head:content-type".into(), json!({"content_type": ct, "written": raw()})) }
+    if p.consumed != run.written.len() {
+        return viol(seqf, "bytes-after-terminating-chunk".into(), json!({"extra": crate::core::esc(&run.written[p.consumed..]), "written": raw()}))
+    }
+
+    /* event stream */
+    let parsed = match sse::parse(&p.body) {
+        Err(e) => return viol(seqf, "invalid-utf8".into(), json!({"error": e, "body": crate::core::esc(&p.body)})),
+        Ok(x) => x,
+    };
+    let observed = || json!({
+        "body": String::from_utf8_lossy(&p.body),
+        "events": parsed.events.iter().map(event_json).collect::<Vec<_>>(),
+        "fieldless_dispatches": parsed.empty_dispatches.iter().map(event_json).collect::<Vec<_>>(),
+        "pending_at_eof": parsed.pending_at_eof.as_ref().map(event_json),
+    });
+    let o = &parsed.events;
+    let n = expected.len().min(o.len());
+    for i in 0..n {
+        let (m, e, got) = (&case.messages[i], &expected[i], &o[i]);
+        let tf = text_feature(m);
+        if got.data != *e {
+            let od = &got.data;
+            let symptom =
+                if o.len() < expected.len() && i + 1 < expected.len() && *od == expected[i + 1] { "message-lost" }
+                else if o.len() > expected.len() && i > 0 && *od == expected[i - 1] { "message-duplicated" }
+                else if i + 1 < expected.len() && (*od == format!("{e}\n{}", expected[i + 1]) || *od == format!("{e}{}", expected[i + 1])) { "messages-merged" }
+                else if o.len() > expected.len() && e.starts_with(od.as_str()) { "message-split" }
+                else if has_lone_cr(m) && e.starts_with(od.as_str()) { if got.has_other_field() { "field-injected-after-CR" } else { "text-lost-after-CR" } }
+                else if *e == format!("{od}\n") { "trailing-newline-lost" }
+                else if e.strip_prefix(' ') == Some(od.as_str()) { "leading-space-stripped" }
+                else if od.strip_prefix(' ') == Some(e.as_str()) { "leading-space-added" }
+                else if e.starts_with(od.as_str()) { "text-truncated" }
+                else if od.starts_with(e.as_str()) { "text-extended" }
+                else { "wrong-text" };
+            return viol(tf, symptom.into(), observed())
+        }
+        if got.has_other_field() {
+            // text is right, yet another field travels with the event
+            let explicit_default = got.ids.is_empty() && got.retries.is_empty() && got.event == "message";
+            if explicit_default { return Verdict::Ambiguous { reason: "explicit-default-event-type".into() } }
+            let which = if !got.event.is_empty() { "event" } else if !got.ids.is_empty() { "id" } else { "retry" };
+            return viol(tf, format!("other-field-dispatched:{which}"), observed())
+        }
+    }
+    if o.len() < expected.len() {
+        let tf = text_feature(&case.messages[o.len()]);
+        let symptom = if parsed.pending_at_eof.as_ref().is_some_and(|e| e.data_lines > 0) { "last-event-not-closed" } else { "message-lost" };
+        return viol(tf, symptom.into(), observed())
+    }
+    if o.len() > expected.len() {
+        let symptom = if expected.last().is_some_and(|l| *l == o[expected.len()].data) { "message-duplicated" } else { "extra-event" };
+        return viol(seqf, symptom.into(), observed())
+    }
+    if parsed.empty_dispatches.iter().any(|e| e.has_other_field()) || parsed.pending_at_eof.as_ref().is_some_and(|e| e.has_other_field()) {
+        return viol(seqf, "stray-field-outside-events".into(), observed())
+    }
+    if !parsed.grammatical() { return viol(seqf, "stream-not-closed-by-blank-line".into(), observed()) }
+
+    /* pace: nothing may be withheld while the producer waits for the outside world */
+    for &(bytes, pushed) in &run.moves {
+        let delivered = events_in_prefix(&run.written, bytes);
+        if delivered < pushed {
+            let tf = text_feature(&case.messages[delivered.min(case.messages.len() - 1)]);
+            return viol(tf, "withheld-while-producer-waits".into(), json!({
+                "at_environment_move": {"bytes_written": bytes, "messages_pushed": pushed, "events_decodable": delivered},
+                "written_so_far": crate::core::esc(&run.written[..bytes.min(run.written.len())])}))
+        }
+    }
+
+    let noise = o.iter().chain(parsed.empty_dispatches.iter()).any(|e| e.has_noise());
+    if noise { return Verdict::Ambiguous { reason: "comment-or-unknown-field-in-stream(messages intact)".into() } }
+    Verdict::Pass { key: format!("ok/{seqf}/{schf}") }
+}
+
+
+/* ------------------------------------------------------------------------------------------------
+   part B: the same path through the real `Session::manage` over loopback TCP (tokio, one thread)
+   (a) conformance: for schedules that need no harness move the bytes on the socket must equal the
+       bytes of the in-memory run — this binds "read, handle, send driven by the harness" to the real
+       session loop; a mismatch is a machinery failure, not a verdict;
+   (b) pace: one case in which the producer waits longer than the session's keep-alive limit.
+------------------------------------------------------------------------------------------------ */
+
+/// `OHKAMI_KEEPALIVE_TIMEOUT` (seconds) installed for part B; the default of the framework is 42
+const KEEPALIVE_S: u64 = 1;
+/// real sleep of a `Z` gap: longer than KEEPALIVE_S
+const SLEEP_MS: u64 = 1500;
+
+fn install_keepalive() {
+    // read once by the framework (LazyLock) when the first session starts; nothing before part B starts one
+    std::env::set_var("OHKAMI_KEEPALIVE_TIMEOUT", KEEPALIVE_S.to_string());
+}
+
+fn over_tcp(router: &VerifRouter, case: &Case) -> Result<Vec<u8>, String> {
+    use tokio::io::{AsyncReadExt, AsyncWriteExt};
+    let slot: SharedSlot = Arc::new(Mutex::new(Slot::default()));
+    SCRIPT.with(|s| *s.borrow_mut() = Some(Script { mode: case.mode, steps: steps_of(case), slot }));
+    let rt = tokio::runtime::Builder::new_current_thread().enable_all().build().map_err(|e| format!("tokio runtime: {e}"))?;
+    let router = router.clone();
+    rt.block_on(async move {
+        let listener = tokio::net::TcpListener::bind("127.0.0.1:0").await.map_err(|e| format!("bind: {e}"))?;
+        let addr = listener.local_addr().map_err(|e| format!("local_addr: {e}"))?;
+        let server = tokio::spawn(async move {
+            let (conn, _) = listener.accept().await.expect("accept");
+            ohkami::__verif__::serve_connection(&router, conn).await
+        });
+        let mut c = tokio::net::TcpStream::connect(addr).await.map_err(|e| format!("connect: {e}"))?;
+        c.write_all(REQUEST).await.map_err(|e| format!("write: {e}"))?;
+        let mut buf = Vec::new();
+        // the session ends (Connection: close, or its keep-alive limit) and drops the socket: EOF
+        let eof = c.read_to_end(&mut buf).await;
+        let joined = server.await;
+        if let Err(e) = joined { if e.is_panic() { return Err("session task panicked".to_string()) } }
+        match eof { Ok(_) => Ok(buf), Err(e) if !buf.is_empty() => { let _ = e; Ok(buf) }, Err(e) => Err(format!("read: {e}")) }
+    })
+}
+
+fn check_tcp_case(ctx: &mut Ctx, router: &VerifRouter, case: &Case) {
+    let conformance = !case.gaps.contains(&Gap::Sleep);
+    let mut mem = None;
+    if conformance {
+        // the in-memory run first: if it does not even finish (reported by part A), the socket run would only
+        // sit out the keep-alive limit
+        let m = execute(router, &Case { tcp: false, ..case.clone() });
+        if m.end != (End::Done { upgraded: false }) { ctx.skip(); return }
+        mem = Some(m);
+    }
+    let bytes = match guarded(|| over_tcp(router, case)) {
+        Ok(Ok(b)) => b,
+        Ok(Err(e)) => { ctx.machinery_error(format!("C17 part B: {e} (case {})", case.to_json())); return }
+        Err(p) => { ctx.machinery_error(format!("C17 part B: harness panicked: {p} (case {})", case.to_json())); return }
+    };
+    ctx.traces_validated += 1;
+    if let Some(mem) = mem {
+        // (a) conformance with the in-memory run of the same case
+        if mem.written != bytes {
+            ctx.machinery_error(format!("C17 conformance: real Session::manage over TCP and the in-memory run disagree on {}: tcp=`{}` memory=`{}`",
+                case.to_json(), crate::core::esc(&bytes), crate::core::esc(&mem.written)));
+            return
+        }
+        ctx.pass("tcp-conformance/identical-bytes", !case.messages.is_empty(), false);
+        let n = ctx.extra.get("sum_tcp_conformance_identical").and_then(Value::as_u64).unwrap_or(0);
+        ctx.extra.insert("sum_tcp_conformance_identical".into(), json!(n + 1));
+        return
+    }
+    // (b) judged by the same oracle as every other case
+    let run = Run { end: End::Done { upgraded: false }, written: bytes, polls: 0, moves: Vec::new(), pushed: 0, producer_finished: false };
+    ctx.states += 1;
+    match judge(case, &run) {
+        Verdict::Pass { key } => ctx.pass(&key, true, false),
+        Verdict::Ambiguous { reason } => ctx.ambiguous(&reason),
+        Verdict::Violation { class, observed } => {
+            let expected: Vec<String> = case.messages.iter().map(|m| sse::normalise(m)).collect();
+            ctx.violation(&class, true, || { let mut w = case.to_json(); w["expected"] = json!(expected); w["observed"] = observed; w });
+        }
+    }
+}
+
+fn tcp_cases() -> Vec<Case> {
+    let mut seqs: Vec<Vec<&str>> = vec![vec![]];
+    for m in MESSAGES { seqs.push(vec![m]) }
+    seqs.push(vec!["a", "a\nb"]);
+    seqs.push(vec!["é", "", " a"]);
+    seqs.push(vec!["a\r\nb", "\n", ":c", "data: x"]);
+    let mut out = Vec::new();
+    for seq in &seqs {
+        for mode in [Mode::New, Mode::From] {
+            for g in [Gap::None, Gap::SelfWake, Gap::Two] {
+                out.push(Case { mode, messages: seq.iter().map(|m| m.to_string()).collect(), gaps: vec![g; seq.len() + 1], writer: 0, tcp: true });
+            }
+        }
+    }
+    // the producer pauses for longer than the session's keep-alive limit between two plain messages
+    out.push(Case { mode: Mode::New, messages: vec!["a".into(), "a".into()], gaps: vec![Gap::None, Gap::Sleep, Gap::None], writer: 0, tcp: true });
+    out
+}
+
+/* ------------------------------------------------------------------------------------------------
+   bookkeeping
+------------------------------------------------------------------------------------------------ */
+
+#[derive(Default)]
+struct Stats { environment_moves: u64, cases_by_len: [u64; 8], max_polls: u64 }
+
+fn check_case(ctx: &mut Ctx, stats: &mut Stats, router: &VerifRouter, case: &Case) {
+    let run = execute(router, case);
+    ctx.states += 1;
+    ctx.transitions += run.polls;
+    ctx.traces_validated += 1;
+    stats.environment_moves += run.moves.len() as u64;
+    stats.cases_by_len[case.messages.len().min(7)] += 1;
+    stats.max_polls = stats.max_polls.max(run.polls);
+
+    let nontrivial = !case.messages.is_empty();
+    let special_text = case.messages.iter().any(|m| text_feature(m) != "plain");
+    let schf = schedule_feature(case);
+    let collision = special_text && matches!(schf, "burst" | "finish-with-queue" | "from-stream-pending");
+    match judge(case, &run) {
+        Verdict::Pass { key } => {
+            ctx.pass(&key, nontrivial, collision);
+            if collision && case.messages.len() >= 2 && case.writer == 0 {
+                ctx.sample(|| json!({"case": case.to_json(), "polls": run.polls, "environment_moves": run.moves.len(), "written": crate::core::esc(&run.written)}));
+            }
+        }
+        Verdict::Ambiguous { reason } => ctx.ambiguous(&reason),
+        Verdict::Violation { class, observed } => {
+            let expected: Vec<String> = case.messages.iter().map(|m| sse::normalise(m)).collect();
+            ctx.violation(&class, nontrivial, || { let mut w = case.to_json(); w["expected"] = json!(expected); w["observed"] = observed; w });
+        }
+    }
+}
+
+/// all gap vectors of length n, fewest departures from "no yield" first (deviation bounding), then lexicographic
+fn gap_vectors(n: usize) -> Vec<Vec<Gap>> {
+    let total = GAPS.len().pow(n as u32);
+    let mut v: Vec<Vec<Gap>> = (0..total).map(|mut idx| {
+        let mut g = vec![Gap::None; n];
+        for slot in g.iter_mut().rev() { *slot = GAPS[idx % GAPS.len()]; idx /= GAPS.len(); }
+        g
+    }).collect();
+    v.sort_by_key(|g| g.iter().filter(|x| **x != Gap::None).count());   // stable: keeps lexicographic order inside a level
+    v
+}
+
+fn build_router() -> VerifRouter { VerifRouter::from(Ohkami::new("/".GET(handler))) }
+
+pub fn run(ctx: &mut Ctx) {
+    crate::app::pin_clock();
+    let quick = ctx.quick();
+    let max_len = if quick { 3 } else { 4 };
+    let alphabet: Vec<&str> = if quick { MESSAGES.to_vec() } else { MESSAGES.iter().chain(MESSAGES_EXTRA.iter()).copied().collect() };
+    let router = match guarded(build_router) {
+        Ok(r) => r,
+        Err(p) => { ctx.machinery_error(format!("C17: building the one-route application panicked: {p}")); return }
+    };
+    let vectors: Vec<Vec<Vec<Gap>>> = (0..=max_len).map(|k| gap_vectors(k + 1)).collect();
+
+    let mut completed_len = None;
+    let mut stats = Stats::default();
+
+    // part B is one unit
+    if ctx.mine() {
+        install_keepalive();
+        let cases = tcp_cases();
+        ctx.extra.insert("sum_tcp_cases".into(), json!(cases.len()));
+        let t0 = std::time::Instant::now();
+        for case in &cases {
+            if t0.elapsed().as_secs_f64() > 12.0 {
+                ctx.machinery_error("C17 part B: the socket runs exceeded their 12 s allowance (sessions hanging until the keep-alive limit?)".into());
+                break
+            }
+            check_tcp_case(ctx, &router, case);
+        }
+    }
+    'outer: for k in 0..=max_len {
+        let n = alphabet.len();
+        let total = n.pow(k as u32);
+        // a unit (for sharding) = one message sequence with all its schedules
+        for idx in 0..total {
+            if ctx.out_of_time() { break 'outer }
+            if !ctx.mine() { continue }
+            let mut toks = Vec::with_capacity(k);
+            let mut x = idx;
+            for _ in 0..k { toks.push(x % n); x /= n; }
+            toks.reverse();
+            let messages: Vec<String> = toks.iter().map(|t| alphabet[*t].to_string()).collect();
+            for mode in [Mode::New, Mode::From] {
+                for gaps in &vectors[k] {
+                    for writer in 0..WRITERS.len() {
+                        let case = Case { mode, messages: messages.clone(), gaps: gaps.clone(), writer, tcp: false };
+                        check_case(ctx, &mut stats, &router, &case);
+                    }
+                }
+                if ctx.out_of_time() { break 'outer }
+            }
+        }
+        completed_len = Some(k);
+    }
+
+    ctx.extra.insert("rule".into(), json!("one case = (constructor new|from, message sequence, one gap behaviour per gap incl. after the last message, writer mode), all on the real read -> handle -> send path; every case is distinct by construction; non-trivial = at least one message; designed collision = a message with a line break / colon / leading space / empty / non-ASCII text travels through a non-textbook drain path (burst of pushes before a yield, producer finished with items queued, or a Pending-answering Stream behind DataStream::from)"));
+    ctx.extra.insert("distinct_by_construction".into(), json!(true));
+    ctx.extra.insert("bounds".into(), json!({
+        "messages": alphabet, "max_sequence_length": max_len, "gap_alphabet": "N no yield | S self-waking yield | H yield woken later by the harness | D two self-waking yields",
+        "gaps_per_case": "sequence length + 1", "constructors": ["DataStream::new", "DataStream::from"], "writers": WRITERS.iter().map(|w| w.1).collect::<Vec<_>>(),
+        "product": "full (no thinning)",
+        "part_B_over_tcp": {"cases": tcp_cases().len(), "what": "every single message, the empty stream and three longer sequences x both constructors x {N,S,D on every gap} through the real Session::manage over loopback TCP, bytes compared with the in-memory run; plus one case whose producer sleeps longer than the keep-alive limit",
+                            "keepalive_timeout_s": KEEPALIVE_S, "sleep_ms": SLEEP_MS}}));
+    if let Some(k) = completed_len { ctx.extra.insert("max_bound_completed_sequence_length".into(), json!(k)); }
+    ctx.extra.insert("sum_environment_moves".into(), json!(stats.environment_moves));
+    ctx.extra.insert("max_polls_in_one_case".into(), json!(stats.max_polls));
+    for (k, c) in stats.cases_by_len.iter().enumerate() { if *c > 0 { ctx.extra.insert(format!("sum_cases_with_{k}_messages"), json!(c)); } }
+}
+
+pub fn replay(ctx: &mut Ctx, case: &Value) {
+    crate::app::pin_clock();
+    let case = match Case::from_json(case) { Ok(c) => c, Err(e) => { ctx.machinery_error(format!("C17 replay: bad case: {e}")); return } };
+    let router = match guarded(build_router) {
+        Ok(r) => r,
+        Err(p) => { ctx.machinery_error(format!("C17: building the one-route application panicked: {p}")); return }
+    };
+    if case.tcp { install_keepalive(); check_tcp_case(ctx, &router, &case) }
+    else { check_case(ctx, &mut Stats::default(), &router, &case) }
+}
